@@ -348,11 +348,17 @@ class Signal( NamedObject, Connectable ):
     leaf_signals = []
     def recursive_getattr( m, instance ):
       for x in instance.__dict__:
-        signal = getattr( m, x )
-        if signal.is_leaf_signal():
-          leaf_signals.append( signal )
-        else:
-          recursive_getattr( signal, instance.__dict__[x] )
+        visit( getattr( m, x ), instance.__dict__[x] )
+
+    # A field can be a (nested) list of Bits or bitstructs
+    def visit( signal, value ):
+      if isinstance( signal, list ):
+        for sub_signal, sub_value in zip( signal, value ):
+          visit( sub_signal, sub_value )
+      elif signal.is_leaf_signal():
+        leaf_signals.append( signal )
+      else:
+        recursive_getattr( signal, value )
 
     # OK now it's not Bits or int, let's instantiate it if it's never
     # accessed
